@@ -1,10 +1,12 @@
 import XlModel.Styles
+import XlModel.Lemmas.StylesGrid
 import XlModel.Drv.Util
 /-!
 Line-protocol driver for C17. State: style registry, worksheet grid, the Spec's three levels,
 and the declared values of the external `extractNumFmtDecimal` (`decl`).
 
   reset                         new workbook                      -> ok <registry dump>
+  resetcols a-b:s;...           NewFile() package reopened with these <col> entries -> ok <grid dump>
   resetc f l b x                NewFile() package reopened with these count attributes in styles.xml -> ok <registry dump>
   decl <hexcode> <n>            environment: extractNumFmtDecimal -> ok
   new <style>                   NewStyle                          -> ok <id> sz=.. dp=.. <counts> | ERR
@@ -209,6 +211,20 @@ def step (st : St) (w : List String) : St × String :=
       let r0 : Reg := { initReg with fontsCount := a, fillsCount := b, bordersCount := c, xfsCount := d }
       ({ St.init with dec := st.dec, reg := r0 }, "ok " ++ dumpReg r0)
     | _, _, _, _ => (st, "bad-op")
+  | ["resetcols", spec] =>
+    -- NewFile() package reopened with a <cols> element holding these (range) entries
+    let cols : List Col := (spec.splitOn ";").filterMap fun e =>
+      match e.splitOn ":" with
+      | [rng, st] =>
+        match rng.splitOn "-", st.toNat? with
+        | [a, b], some st => match a.toNat?, b.toNat? with
+          | some a, some b => some ⟨a, b, st⟩
+          | _, _ => none
+        | _, _ => none
+      | _ => none
+    let g : Grid := ⟨[], cols⟩
+    ({ St.init with dec := st.dec, grid := g, lv := { Spec.Levels.empty with col := fun c => colS g c } },
+      "ok " ++ gridS g)
   | ["decl", h, n] =>
     match unhexS h, n.toInt? with
     | some c, some n => ({ st with dec := (c, n) :: st.dec }, "ok")
